@@ -146,6 +146,7 @@ def spaces(name, tier):
     elif name == "spike_test":
         for x in alpha.all_seqs((0.0, 1.0, 3.0, 4.0, NAN), 0, 4 + d):
             yield dict(x=list(x))
+        yield dict(x=alpha.debruijn((0.0, 1.0, 3.0, 4.0, NAN), 3) * 3)
     elif name == "rate_of_change_test":
         for x in alpha.all_seqs((0.0, 1.0, 3.0, NAN), 0, 3 + d):
             for gaps in ((1, 2, 60, 1), (60, 1, 1, 2)):
@@ -159,7 +160,11 @@ def spaces(name, tier):
     elif name == "flat_line_test":
         for x in alpha.all_seqs((0.0, 1.0, 3.0, NAN), 0, 5 + d):
             yield dict(x=list(x), secs=alpha.regular_secs(len(x), 60))
+        lx = alpha.debruijn((0.0, 1.0, 3.0, NAN), 4) * 2
+        yield dict(x=lx, secs=alpha.regular_secs(len(lx), 60))
     elif name == "attenuated_signal_test":
+        lx = alpha.debruijn((0.0, 1.0, 3.0, NAN), 3) * 3
+        yield dict(x=lx, secs=alpha.regular_secs(len(lx), 60))
         for x in alpha.all_seqs((0.0, 1.0, 3.0, NAN), 0, 4 + d):
             for gaps in ((60, 60, 60, 60), (60, 120, 300, 60)):
                 yield dict(x=list(x), secs=alpha.times_from_gaps(gaps[: max(len(x) - 1, 0)]) if x else [])
